@@ -97,6 +97,8 @@ func (e *StdEvents) Label(in ssa.Instruction) []string {
 			} else {
 				ls = append(ls, "st:"+fd+"="+c.Value.ExactString())
 			}
+		} else if d := describe(val); len(d) < 60 {
+			ls = append(ls, "st:"+fd+"=@"+d)
 		}
 		return ls
 	}
